@@ -126,8 +126,8 @@ def run(ctx):
         raise core.obsmod.MachineryError("too few inert words: %r" % words)
     ctx.extra["inert_words"] = words
     exprs = [(t, (2018, 3, 7, 12, 43), 1) for t in grammar_exprs(rnd, ctx.quick)]
-    corp = corpus_texts()
-    exprs += [(qa.CTP._preprocess_string(t), ts, 0) for t, ts in (corp[ctx.seed % 3::3] if ctx.quick else corp)]
+    from .c15 import corpus_sample
+    exprs += [(qa.CTP._preprocess_string(t), ts, 0) for t, ts in corpus_sample(ctx.quick, ctx.seed, 3)]
     # lattice binding on bare and embedded texts
     lat = [{"text": t} for t, ts, full in exprs] + [{"text": rnd.choice(words) + " " + t + " " + rnd.choice(words)} for t, ts, full in exprs[::3]]
     # a label in the middle of an expression leaves two blanks; _regex_stack itself must cope with any run of blanks
